@@ -42,12 +42,19 @@ def _not_from_numbers(value):
     return value
 
 
+def _not_from_booleans(value):
+    """A JSON boolean is not an integer (pydantic would read `true` as 1)."""
+    if any(isinstance(item, bool) for item in (value if isinstance(value, list) else [value])):
+        raise ValueError("A boolean is not an integer")
+    return value
+
+
 AuxType = Annotated[
     Union[
         FunctionDict,
         Properties,
         ResolvableBoolOrList,
-        ResolvableIntOrList,
+        Annotated[ResolvableIntOrList, BeforeValidator(_not_from_booleans)],
         Annotated[ResolvableDateOrList, BeforeValidator(_not_from_numbers)],
         # Date can be parsed as Datetime in pydantic v2 so should be ordered accordingly
         Annotated[ResolvableDatetimeOrList, BeforeValidator(_not_from_numbers)],
